@@ -29,7 +29,7 @@ Record stanza := mkStanza {
   st_name : option str; st_ns : option str; st_type : option str; st_id : option str;
   st_children : list (option str) }.
 
-Inductive filter :=
+Inductive hfilter :=
 | FStanza (ns name type : option str)
 | FId (id : str)
 | FTimed (period last : Z).
@@ -47,13 +47,13 @@ Definition kind_eqb (a b : kind) : bool :=
   end.
 
 Record item := mkItem {
-  i_cb : Z; i_ud : Z; i_user : bool; i_enabled : bool; i_flt : filter; i_next : option nat }.
+  i_cb : Z; i_ud : Z; i_user : bool; i_enabled : bool; i_flt : hfilter; i_next : option nat }.
 
 Definition it_next (it : item) (n : option nat) : item :=
   mkItem (i_cb it) (i_ud it) (i_user it) (i_enabled it) (i_flt it) n.
 Definition it_enabled (it : item) (b : bool) : item :=
   mkItem (i_cb it) (i_ud it) (i_user it) b (i_flt it) (i_next it).
-Definition it_flt (it : item) (f : filter) : item :=
+Definition it_flt (it : item) (f : hfilter) : item :=
   mkItem (i_cb it) (i_ud it) (i_user it) (i_enabled it) f (i_next it).
 
 Inductive action :=
@@ -195,7 +195,7 @@ Fixpoint enable_all (fuel : nat) (st : state) (p : option nat) : res state :=
   end.
 
 (* _handler_add / _id_handler_add: duplicate test on (callback, userdata) only, then append at the tail *)
-Definition add_tail (fuel : nat) (k : kind) (cb ud : Z) (user : bool) (flt : filter) (st : state) : res state :=
+Definition add_tail (fuel : nat) (k : kind) (cb ud : Z) (user : bool) (flt : hfilter) (st : state) : res state :=
   dup <- find_dup fuel st (get_head k st) cb ud ;;
   if dup then Ok st
   else
@@ -209,7 +209,7 @@ Definition add_tail (fuel : nat) (k : kind) (cb ud : Z) (user : bool) (flt : fil
     end.
 
 (* _timed_handler_add: same duplicate test, insert at the head, last_stamp = now *)
-Definition add_head (fuel : nat) (k : kind) (cb ud : Z) (user : bool) (flt : filter) (st : state) : res state :=
+Definition add_head (fuel : nat) (k : kind) (cb ud : Z) (user : bool) (flt : hfilter) (st : state) : res state :=
   dup <- find_dup fuel st (get_head k st) cb ud ;;
   if dup then Ok st
   else
